@@ -628,6 +628,7 @@ MULT_SEQS = [
     [(3, 3), (1, 2), (3, 3)],
     [(3, 2), (3, 2), (2, 1)],
 ]
+MULT_SEQS_SMALL = [q for q in MULT_SEQS if max(max(m) for m in q) <= 2] + [[(2, 2), (1, 2), (2, 2)], [(1, 2), (2, 1), (2, 1), (1, 2)]]
 TV_SEQS_EVEN = [[(2, 2), (2, 4), (2, 2)], [(2, 4), (2, 4)], [(4, 2), (2, 2), (4, 2)]]
 
 
@@ -652,9 +653,9 @@ def grid_cases(tier):
             n += 1
             bcfg = unet_config(ms, stem, filters, fr, cpb, upi, mb, inch, min(hs))
             n_parts = 2 + n % 3
-            cases.append(
-                make_case("unet", bcfg, mt, hs, n_parts, 1 + n % (n_parts - 1), 1 + n % 2, _sizes(ms, MULT_SEQS[n % len(MULT_SEQS)]), n)
-            )
+            # max_stride 32: multiples <= 2 (64 px) to bound the cost of the widest models
+            seqs = MULT_SEQS_SMALL if ms == 32 else MULT_SEQS
+            cases.append(make_case("unet", bcfg, mt, hs, n_parts, 1 + n % (n_parts - 1), 1 + n % 2, _sizes(ms, seqs[n % len(seqs)]), n))
     for bb, stemp, fr, cpb, upi, inch in itertools.product(["convnext", "swint"], [2, 4], [1.5, 2], [1, 2, 3], [True, False], [1, 3]):
         for ms in ([16] if stemp == 2 else [16, 32]):
             for mt, hs in _head_combos([1, 2, 4, 8, 16]):
@@ -689,17 +690,17 @@ def parts(tier):
             name="core",
             evaluate=evaluate,
             strategy=lambda: core_strategy(w),
-            budget={"quick": 260, "thorough": 12000},
+            budget={"quick": 260, "thorough": 3200},
             shards={"quick": 1, "thorough": 16},
-            min_nontrivial={"quick": 60, "thorough": 3000},
+            min_nontrivial={"quick": 60, "thorough": 800},
         ),
         Part(
             name="ext",
             evaluate=evaluate,
             strategy=lambda: ext_strategy(w),
-            budget={"quick": 160, "thorough": 8000},
+            budget={"quick": 160, "thorough": 1600},
             shards={"quick": 1, "thorough": 16},
-            min_nontrivial={"quick": 15, "thorough": 800},
+            min_nontrivial={"quick": 25, "thorough": 250},
         ),
     ]
     if tier == "thorough":
@@ -710,7 +711,7 @@ def parts(tier):
                 enumerate=enum_grid,
                 shards={"thorough": 16},
                 exhaustive={"thorough": True},
-                min_nontrivial={"thorough": 5000},
+                min_nontrivial={"thorough": 15000},
             )
         )
     return ps
